@@ -125,3 +125,70 @@ def validate_trace(r):
         if f.get("out") != r["impl"].split()[1]:
             return "output bytes differ between implementation and model at the end of the same schedule"
     return None
+
+
+def pipe_expected(inp, T, ispadding):
+    """sequential reference of the abstract pipeline with the tagging stream objects (drv.cpp TagMode)"""
+    data = bytearray(inp)
+    if ispadding:
+        p = 16 - len(data) % 16
+        data += bytes([p]) * p
+    else:
+        data = data[:len(data) - len(data) % 16]
+    cnt = [0] * T
+    out = bytearray()
+    nchunks = (len(data) + CH - 1) // CH
+    for j in range(nchunks):
+        ch = bytearray(data[j * CH:(j + 1) * CH])
+        s = j % T
+        for b in range(0, len(ch), 16):
+            for i in range(8):
+                ch[b + i] ^= (s + 1) & 255
+            ch[b + 8] ^= cnt[s] & 255
+            cnt[s] += 1
+        out += ch
+    if not ispadding and out:
+        pad = out[-1]
+        out = out[:len(out) - pad] if pad <= len(data) - (nchunks - 1) * CH else out
+    return bytes(out)
+
+
+def ownership_monitor(evs):
+    """independent check of C14 on the implementation's event stream: buffer states are tracked from the recorded
+    critical sections; every unsynchronised access must be made by the current owner. Returns None or a description."""
+    st = {}          # buffer -> state (0 EMPTY 1 UPDATING 2 READY 3 INV)
+    turn = 0
+    io_window = None  # buffer the I/O thread is flushing/refilling
+    seen_chunks = {}
+    for k, (tid, kind, obj, val) in enumerate(evs):
+        if kind in (3, 4, 5, 6, 7):
+            turn = obj
+        if kind == 15:          # set_ready by the I/O thread on buffer `turn`
+            if st.get(turn, 0) not in (0, 1):
+                return "event %d: the I/O thread changed buffer %d from state %d (only EMPTY/UPDATING may be handed over)" % (k, turn, st.get(turn, 0))
+            st[turn] = val
+            io_window = None
+        elif kind == 18:        # set_update by worker tid-1
+            b = tid - 1
+            if val == 1 and st.get(b, 0) != 2:
+                return "event %d: worker %d moved buffer %d to UPDATING from state %d" % (k, b, b, st.get(b, 0))
+            if val == 1:
+                st[b] = 1
+        elif kind in (1, 2):    # worker reads the cursor / takes an entry
+            b = obj
+            if tid - 1 != b:
+                return "event %d: worker %d touched buffer %d" % (k, tid - 1, b)
+            s = st.get(b, 0)
+            if kind == 1 and s not in (2, 3):
+                return "event %d: worker %d looked at buffer %d while it is %s (owned by the I/O thread)" % (k, b, b, ["EMPTY", "UPDATING"][s])
+            if val == 1 and s != 2:
+                return "event %d: worker %d took an entry of buffer %d in state %d" % (k, b, b, s)
+            if io_window == b:
+                return "event %d: worker %d touched buffer %d while the I/O thread is flushing/refilling it" % (k, b, b)
+        elif kind in (4, 6):    # export begin / load begin
+            if kind == 6 and val == 1:
+                continue        # over: no load happens
+            if st.get(obj, 0) not in (0, 1):
+                return "event %d: the I/O thread %s buffer %d in state %d (owned by its worker)" % (k, "flushes" if kind == 4 else "refills", obj, st.get(obj, 0))
+            io_window = obj
+    return None
